@@ -109,6 +109,8 @@ IndexBad(x) ==
     \/ x.k = "ttm" /\ C("index", "pair_kinds", x, <<>>, TRUE, TRUE)                \* (int, slice) pair
     \/ x.k = "ttm" /\ C("index", "too_few", x, <<>>, TRUE, TRUE)
     \/ x.k = "tt" /\ d >= 2 /\ C("index", "bare_int", x, <<>>, TRUE, TRUE)         \* x[0] on order >= 2
+    \/ x.k = "tt" /\ d >= 2 /\ C("index", "short", x, <<>>, TRUE, TRUE)            \* a tuple of d-1 integers ("Slice size is invalid")
+    \/ x.k = "tt" /\ d >= 3 /\ C("index", "short_slices", x, <<>>, TRUE, TRUE)     \* a tuple of d-1 slices
     \/ x.k = "tt" /\ d >= 2 /\ C("index", "bare_slice", x, <<>>, TRUE, TRUE)
     \/ x.k = "tt" /\ C("apply_mask", "range", x, <<>>, FALSE, TRUE)
 DotBad(x) ==
